@@ -369,6 +369,9 @@ def run(pid, tier, seed):
         #      inversion), an accounting file not stored chronologically, a journal; every bound in several spellings
         other_runs = 0
         from . import c10, c08, c09
+        # accounting records in the layouts of other systems (shipped samples, records re-timed): windows on and around them
+        foreign = c08.foreign_layouts(sc, rep, rng, tier, windowed=True)
+        other_runs += sum(f_["windows"] for f_ in foreign)
         import re as _re
         import shutil as _sh
         od = os.path.join(sc, "other")
